@@ -158,6 +158,9 @@ off64_t _GD_GetEOF(DIRFILE *restrict D, gd_entry_t *restrict E,
         E->field);
   }
 
+  if (!(E->flags & GD_EN_CALC))
+    _GD_CalculateEntry(D, E, 1);
+
   if (_GD_FindInputs(D, E, 1)) {
     D->recurse_level--;
     dreturn("%i", D->error);
@@ -366,6 +369,9 @@ static off64_t _GD_GetBOF(DIRFILE *restrict D, gd_entry_t *restrict E,
     GD_SET_RETURN_ERROR(D, GD_E_RECURSE_LEVEL, GD_E_RECURSE_CODE, NULL, 0,
         E->field);
   }
+
+  if (!(E->flags & GD_EN_CALC))
+    _GD_CalculateEntry(D, E, 1);
 
   if (_GD_FindInputs(D, E, 1)) {
     D->recurse_level--;
